@@ -35,3 +35,21 @@ func TestC20ElapsedOfBarFirstDrawnCompleted(t *testing.T) {
 		t.Errorf("average speed of 1 MiB in 2 s on a bar first drawn completed printed %q, want 512.0 KiB/s", out)
 	}
 }
+
+// C20, reported by a bug-hunting sub-agent, reproduced by the c20-clock cases once the clock advances between the last
+// running frame and the completion: both decorators repeated the text of the last running frame for good.
+func TestC20ValuesAtCompletion(t *testing.T) {
+	start := time.Now().Add(-2 * time.Second)
+	el := decor.NewElapsed(decor.ET_STYLE_GO, start.Add(-88*time.Second))
+	sp := decor.NewAverageSpeed(decor.SizeB1024(0), "% .1f", start)
+	running := decor.Statistics{Total: 1 << 20, Current: 0}
+	el.Decor(running)
+	sp.Decor(running)
+	done := decor.Statistics{Total: 1 << 20, Current: 1 << 20, Completed: true}
+	if out, _ := el.Decor(done); out != "1m30s" {
+		t.Errorf("elapsed on the frame that shows the bar completed: %q, want 1m30s", out)
+	}
+	if out, _ := sp.Decor(done); out != "512.0 KiB/s" {
+		t.Errorf("average speed of 1 MiB in 2 s on the frame that shows the bar completed: %q, want 512.0 KiB/s", out)
+	}
+}
